@@ -1577,7 +1577,7 @@ Module RTExample.
              (oneof : option string) : finfo :=
     {| fi_name := name; fi_snake := snake; fi_path := snake; fi_kind := k; fi_tk := tk; fi_cast := c;
        fi_nullable := nullable; fi_zero := zero; fi_placeholder := false; fi_oneof := oneof; fi_via := [];
-       fi_parent := None; fi_required := false; fi_computed := false; fi_sensitive := false;
+       fi_parent := None; fi_inner := []; fi_required := false; fi_computed := false; fi_sensitive := false;
        fi_validators := []; fi_planmods := []; fi_comment := ""; fi_suffix := "" |}.
 
   Definition inner : message :=
